@@ -166,6 +166,10 @@ pub enum Op {
     },
     /// Drop the database in `slot`.
     Drop { slot: usize },
+    /// Another running instance: take the index writer lock of the on-disk index (if the directory
+    /// holds an index that opens) and keep it for `ms` milliseconds of real time. While it is held
+    /// an empty file `<XDG_DATA_HOME>/.verif-holding` exists.
+    HoldWriter { ms: u64 },
 }
 
 #[derive(Serialize, Deserialize, Clone, Debug, PartialEq, Eq, Default)]
@@ -189,6 +193,10 @@ pub struct Session {
     /// tokenizer configuration: what another release leaves behind, for real)
     #[serde(default, skip_serializing_if = "std::ops::Not::not")]
     pub ver: bool,
+    /// run the *renamed-assets build* of the tool (same code, version and file contents, but the first
+    /// fact asset ships under a name that sorts last: the facts are indexed in another order)
+    #[serde(default, skip_serializing_if = "std::ops::Not::not")]
+    pub ren: bool,
     /// extra environment variables of this process start (RUST_LOG and the like; "<unset>" removes one).
     /// With RUST_LOG set the simulated process installs the same logger as the real program.
     #[serde(default, skip_serializing_if = "Vec::is_empty")]
@@ -366,6 +374,8 @@ pub enum Event {
         skipped: Option<String>,
     },
     FaultFired { kind: String, point: String, k: usize },
+    /// how a `HoldWriter` operation went
+    Held { held: bool, why: String },
     /// the session ran to its end
     End,
     /// harness-level problem inside the child (never a verdict)
